@@ -734,10 +734,12 @@ theorem C13_symmetric_across_namespaces {sv : Server} (hinv : WInv sv.repo)
 theorem C13_write_step_keeps_discipline_partial {sv sv' : Server} (hinv : WInv sv.repo) :
     (∀ ns a, CreateOk sv.repo ns a → createAssoc sv ns a = .ok sv' → WInv sv'.repo) ∧
     (∀ ns p chg, ModifyOk sv ns p chg → modifyAssoc sv ns p chg = .ok sv' → WInv sv'.repo) ∧
-    (∀ ns p, deleteAssoc sv ns p = .ok sv' → WInv sv'.repo) :=
+    (∀ ns p, deleteAssoc sv ns p = .ok sv' → WInv sv'.repo) ∧
+    (∀ ns cn, deleteClassAssoc sv ns cn = .ok sv' → WInv sv'.repo) :=
   ⟨fun _ _ hreq h => create_preserves hinv hreq h,
    fun _ _ _ hreq h => modify_preserves hinv hreq h,
-   fun _ _ h => delete_preserves hinv h⟩
+   fun _ _ h => delete_preserves hinv h,
+   fun _ _ h => deleteClass_preserves hinv h⟩
 
 /-- **invariant over histories**: after ANY history of CreateInstance / ModifyInstance / DeleteInstance
     requests for association instances (accepted or refused, in any order, through any namespace) whose
@@ -756,6 +758,7 @@ theorem C13_write_history_keeps_discipline_partial : ∀ (ops : List WOp) (sv : 
         | create ns a => exact create_preserves hinv hreq hres
         | modify ns p chg => exact modify_preserves hinv hreq hres
         | delete ns p => exact delete_preserves hinv hres
+        | deleteClass ns cn => exact deleteClass_preserves hinv hres
     exact C13_write_history_keeps_discipline_partial ops (stepW sv op) hstep hrest
 
 /-- **after any such history traversal is symmetric across namespaces** (composition of the two
